@@ -91,3 +91,41 @@ def canon(node):
         return ast.unparse(node)
     except Exception:
         return "<?>"
+
+
+def alpha_names(fn_node):
+    """local names (parameters after the first, and assigned names) -> v0, v1, ... by first appearance"""
+    order = []
+    args = [a.arg for a in fn_node.args.args[1:]]
+    for a in args:
+        if a not in order:
+            order.append(a)
+    for n in ast.walk(fn_node):
+        if isinstance(n, ast.Name) and isinstance(n.ctx, ast.Store) and n.id not in order:
+            order.append(n.id)
+    return {name: f"v{i}" for i, name in enumerate(order)}
+
+
+class _Rename(ast.NodeTransformer):
+    def __init__(self, m):
+        self.m = m
+
+    def visit_Name(self, node):
+        if node.id in self.m:
+            return ast.copy_location(ast.Name(id=self.m[node.id], ctx=node.ctx), node)
+        return node
+
+
+def alpha_canon(fn_node, stmts=None, extra=None):
+    """canonical text of a function body with local names alpha-renamed (and ``extra`` textual substitutions)"""
+    m = alpha_names(fn_node)
+    body = clone(stmts if stmts is not None else fn_node.body)
+    out = []
+    for st in body:
+        if isinstance(st, ast.Expr) and isinstance(st.value, ast.Constant):
+            continue
+        out.append(canon(_Rename(m).visit(st)))
+    txt = "; ".join(out)
+    for a, b in (extra or {}).items():
+        txt = txt.replace(a, b)
+    return txt
